@@ -112,7 +112,11 @@ NumFails(R) ==
   IF R.big THEN BigFails(R) ELSE
   IF R.op = "str"
   THEN (IF ~R.unchanged THEN {"C14:value_changed"} ELSE {}) \cup
-       (IF PrintLaw(R) THEN {} ELSE IF Negative(R) THEN {"C14:KNOWN_F8"} ELSE {"C14:print"})
+       (IF PrintLaw(R) THEN {}
+        ELSE IF Negative(R) THEN {"C14:KNOWN_F8"}
+        (* F21: guarded with ZERO precision digits shown beyond its precision: "%d.%00d_%0gd" prints a spurious 0 before the underscore *)
+        ELSE IF R.cls = "guarded" /\ R.p = 0 /\ R.dEff > 0 /\ R.str.fd = 1 /\ R.str.fr = 0 /\ PrintLaw([R EXCEPT !.str.fd = 0]) THEN {"C14:KNOWN_F21"}
+        ELSE {"C14:print"})
   ELSE (IF R.same_cls THEN {} ELSE {"C12:result_class"}) \cup
        (IF (IF R.cls = "rational" THEN RationalLaw(R) ELSE ScaledLaw(R)) THEN {}
         ELSE {(IF R.op = "cmp" /\ R.cls = "guarded" THEN "C13:" ELSE IF R.cls = "guarded" THEN "C13:g_" ELSE "C12:") \o R.op})
